@@ -57,8 +57,10 @@ def _process_vlandb(rule, key, diff, multi, multi_all, multi_chunk):  # pylint: 
 
     if diff[Op.REMOVED] and not diff[Op.ADDED]:  # Removed
         if multi and multi_all:
-            yield (False, rule["reverse"].format(*key) + " all", None)
-            return
+            if not diff[Op.UNCHANGED]:
+                yield (False, rule["reverse"].format(*key) + " all", None)
+                return
+            # other lines of the same list stay: "all" would wipe their vlans too, remove only what is gone
         elif not multi and not multi_all:
             yield (False, rule["reverse"].format(*key), None)
             return
